@@ -27,11 +27,12 @@ ASSUMPTIONS = [
     "each request carries an extra top-level key (rid) the protocol ignores, used to tag exchanges",
 ]
 REQUIRED_LABELS = {t: ["clients>=8", "overlap-in-flight", "request-line>64KiB", "link-faults", "req:advance", "req:sign_auth",
-                       "req:sign_unauth", "req:state", "req:signerHb", "req:getPubKey",
+                       "req:sign_unauth", "req:state", "req:signerHb", "req:getPubKey", "req:uiHb",
                        "stop-path:hb-malformed-der", "stop-path:reconnect-into-ui-heartbeat",
                        "slow-client:Ledger", "slow-client:TCP", "slow-client:SGX"]
                    for t in ("quick", "thorough")}
-KINDS = ["sign_unauth", "sign_auth", "advance", "state", "signerHb", "getPubKey"]
+KINDS = ["sign_unauth", "sign_auth", "advance", "state", "signerHb", "getPubKey", "uiHb"]
+UI_HB = {"ui_hash": b"\x88" * 32, "ui_pubkey": b"\x04" + b"\x66" * 64}
 T = mw.nominal_requests()
 
 
@@ -49,6 +50,11 @@ def cases(draw, tier):
         #  what C09 prescribes)
         faults = draw(st.lists(st.tuples(st.integers(0, 80), st.sampled_from(["read", "write"])),
                                min_size=1, max_size=1))
+    if faults:
+        # a link failure in the middle of a UI heartbeat leaves the device in the UI-heartbeat
+        # application, where the repeated bring-up stops the manager (as C09 prescribes)
+        for cl in clients:
+            cl["script"] = ["signerHb" if k == "uiHb" else k for k in cl["script"]]
     advs = [[ci, j] for ci, cl in enumerate(clients) for j, k in enumerate(cl["script"])
             if k == "advance"]
     long_one = None
@@ -66,6 +72,8 @@ def make_request(kind, rid, ci, j, long_one=None):
         r["keyId"] = refs.UNAUTH_PATHS[(ci + j) % 4]
     elif kind == "signerHb":
         r["udValue"] = (bytes([ci, j]) * 8).hex()
+    elif kind == "uiHb":
+        r["udValue"] = (bytes([ci, j]) * 16).hex()
     elif kind == "getPubKey":
         r["keyId"] = refs.ALL_PATHS[(ci + j) % 6]
     elif kind == "sign_auth":
@@ -110,6 +118,7 @@ def _run_case(c, accepted):
     socket.setdefaulttimeout(None)      # no process-wide socket state carried between cases
     w = mw.default_world()
     w.adv_plan = {"final": "total"}
+    w.hb.update(UI_HB)      # the UI and the signer are two applications with a hash and key each
     cur = threading.local()
     lock = threading.Lock()
     state = {"inflight": 0, "overlaps": 0, "n": 0}
@@ -313,16 +322,24 @@ def _run_case(c, accepted):
             if rep.get("signature") != want:
                 raise Violation("reply-of-another-request", "%s: %r vs %r" % (
                     rid, rep.get("signature"), want))
-        elif kind == "signerHb":
+        elif kind in ("signerHb", "uiHb"):
             if not rep.get("message", "").endswith(req["udValue"]):
                 raise Violation("reply-of-another-request", "%s: heartbeat message %r lacks own "
                                 "udValue %s" % (rid, rep.get("message"), req["udValue"]))
+            ui = kind == "uiHb"
+            want_hash = (UI_HB["ui_hash"] if ui else w.hb["hash"]).hex()
+            want_key = (UI_HB["ui_pubkey"] if ui else w.hb["pubkey"]).hex()
+            if rep.get("tweak") != want_hash or rep.get("pubKey") != want_key:
+                raise Violation("reply-of-another-request", "%s: %s heartbeat carries hash %r "
+                                "and key %r...; the application asked holds %r and %r..." % (
+                                    rid, "UI" if ui else "signer", rep.get("tweak"),
+                                    str(rep.get("pubKey"))[:20], want_hash, want_key[:20]))
         elif kind == "getPubKey":
             if rep.get("pubKey") != w.pubkeys[refs.path_bin(req["keyId"])].hex():
                 raise Violation("reply-of-another-request", "%s: wrong public key" % rid)
     # non-triviality: two multi-APDU requests of different clients in flight at the same time
     multi = [(rid.split(".")[0], t0, t1) for rid, (kind, _, _, t0, t1) in results.items()
-             if kind in ("sign_auth", "advance", "state", "signerHb")]
+             if kind in ("sign_auth", "advance", "state", "signerHb", "uiHb")]
     overlap = False
     for a, b in itertools.combinations(multi, 2):
         if a[0] != b[0] and a[1] < b[2] and b[1] < a[2]:
